@@ -59,6 +59,29 @@ def vtyOf : Ty → Option VTy
     pure (.pair a' b')
   | _ => none
 
+mutual
+/-- white-space-free text of a type, as the fact extractor prints it -/
+def tyRender : Ty → String
+  | .path segs => segsRender segs
+  | .qpath q (.cons n args rest) => "<" ++ tyRender q ++ "as" ++ n ++ argsRender args ++ ">" ++ (match rest with | .nil => "" | r => "::" ++ segsRender r)
+  | .qpath q .nil => "<" ++ tyRender q ++ ">"
+  | .tuple ts => "(" ++ tysRender ts true ++ ")"
+  | .array t n => "[" ++ tyRender t ++ ";" ++ n ++ "]"
+  | .opaque t => t
+def segsRender : Segs → String
+  | .nil => ""
+  | .cons n args .nil => n ++ argsRender args
+  | .cons n args rest => n ++ argsRender args ++ "::" ++ segsRender rest
+def argsRender : Tys → String
+  | .nil => ""
+  | ts => "<" ++ tysRender ts false ++ ">"
+/-- `single` = render a one-element tuple with its trailing comma -/
+def tysRender : Tys → Bool → String
+  | .nil, _ => ""
+  | .cons t .nil, single => tyRender t ++ (if single then "," else "")
+  | .cons t rest, _ => tyRender t ++ "," ++ tysRender rest false
+end
+
 def fieldSpec (a : Arg) : FieldSpec :=
   { name := a.name, ty := (vtyOf a.ty).getD .empty, dflt := a.attrs.contains "serde(default)" }
 
